@@ -14,8 +14,10 @@ Driver handler for C17 (case formats: see harness/run/c17.go).
               below a Limit/Skip under a concurrent map)
 
   Q <lay> n= w= caps=k:m,... <mode> | P | Q | post
-      model : `RowAlias.stepR` operations on a heap built with the given spare capacities / layout
-      spec  : a table-level evaluator (lists only), the same for every capacity, and the caller-data bit must be 1
+      model : `RowAlias.stepR` operations on a heap built with the given spare capacities / layout; a stage that hands
+              rows (or the metadata slice) on reuses the REGISTER; the whole case is run twice, all results are read at
+              the end (u = no pre-existing array changed, x = the source rows read as at the start, y = second run = first)
+      spec  : a table-level evaluator (lists only), the same for every capacity, and the bits u, x, y must be 1
 
   M <seq|join> src=<cm>,<cm>,... | P | Q          (custom-metadata MAPS; planning time)
       model : `MetaMap.stepM` operations on a heap of map objects holding the caller's maps (source fields',
@@ -165,25 +167,120 @@ def handleD (text obs : String) : String × Bool × String :=
 
 /-! ### Q cases -/
 
-structure CVal where
-  ref : Bool
-  n : Int
+/-- value expressions of a case: `c<int>` | `r<idx>` | `n(v,v)` nvl | `p(v,v)` numeric + | `g(a,b,t,f)` selector over
+    the condition a > b | `k(v)` cast integer -> decimal -> integer -/
+inductive CVal
+  | const (n : Int)
+  | ref (i : Nat)
+  | nvl (a b : CVal)
+  | plus (a b : CVal)
+  | sel (a b t f : CVal)
+  | cast (a : CVal)
 
 structure CStage where
   kind : Char
-  vals : List CVal
+  vals : List CVal := []
+  idx : List Nat := []
+  sub : Char := '-'
+  per : Nat := 0
 
-def parseCVal (s : String) : Option CVal :=
-  match s.toList with
-  | 'c' :: rest => (String.ofList rest).toInt?.map (fun n => { ref := false, n := n })
-  | 'r' :: rest => (String.ofList rest).toNat?.map (fun n => { ref := true, n := n })
+def takeNat (cs : List Char) : Option (Nat × List Char) :=
+  let ds := cs.takeWhile Char.isDigit
+  if ds.isEmpty then none else (String.ofList ds).toNat?.map (fun n => (n, cs.dropWhile Char.isDigit))
+
+def expectC (c : Char) : List Char → Option (List Char)
+  | x :: r => if x == c then some r else none
+  | [] => none
+
+def parseCValC : Nat → List Char → Option (CVal × List Char)
+  | 0, _ => none
+  | _ + 1, 'c' :: '-' :: rest => (takeNat rest).map (fun nr => (CVal.const (-(nr.1 : Int)), nr.2))
+  | _ + 1, 'c' :: rest => (takeNat rest).map (fun nr => (CVal.const (nr.1 : Int), nr.2))
+  | _ + 1, 'r' :: rest => (takeNat rest).map (fun nr => (CVal.ref nr.1, nr.2))
+  | f + 1, 'n' :: '(' :: rest => do
+    let (a, r) ← parseCValC f rest
+    let r ← expectC ',' r
+    let (b, r) ← parseCValC f r
+    let r ← expectC ')' r
+    pure (CVal.nvl a b, r)
+  | f + 1, 'p' :: '(' :: rest => do
+    let (a, r) ← parseCValC f rest
+    let r ← expectC ',' r
+    let (b, r) ← parseCValC f r
+    let r ← expectC ')' r
+    pure (CVal.plus a b, r)
+  | f + 1, 'k' :: '(' :: rest => do
+    let (a, r) ← parseCValC f rest
+    let r ← expectC ')' r
+    pure (CVal.cast a, r)
+  | f + 1, 'g' :: '(' :: rest => do
+    let (a, r) ← parseCValC f rest
+    let r ← expectC ',' r
+    let (b, r) ← parseCValC f r
+    let r ← expectC ',' r
+    let (t, r) ← parseCValC f r
+    let r ← expectC ',' r
+    let (e, r) ← parseCValC f r
+    let r ← expectC ')' r
+    pure (CVal.sel a b t e, r)
+  | _, _ => none
+
+def parseCValFull (cs : List Char) : Option CVal :=
+  match parseCValC (cs.length + 1) cs with
+  | some (v, []) => some v
   | _ => none
+
+def parseValList : Nat → List Char → Option (List CVal)
+  | 0, _ => none
+  | f + 1, cs =>
+    match parseCValC (cs.length + 1) cs with
+    | some (v, []) => some [v]
+    | some (v, '+' :: r) => (parseValList f r).map (v :: ·)
+    | _ => none
+
+def parseIdxList (cs : List Char) : Option (List Nat) :=
+  ((String.ofList cs).splitOn "+").mapM String.toNat?
 
 def parseStage (t : String) : Option CStage :=
   match t.toList with
-  | ['D'] => some { kind := 'D', vals := [] }
-  | 'A' :: rest => (parseCVal (String.ofList rest)).map (fun v => { kind := 'A', vals := [v] })
-  | 'S' :: rest => ((String.ofList rest).splitOn "+").mapM parseCVal |>.map (fun vs => { kind := 'S', vals := vs })
+  | ['D'] => some { kind := 'D' }
+  | 'A' :: rest => (parseCValFull rest).map (fun v => { kind := 'A', vals := [v] })
+  | 'S' :: rest => (parseValList (rest.length + 1) rest).map (fun vs => { kind := 'S', vals := vs })
+  | 'R' :: rest => do
+    let (i, r) ← takeNat rest
+    let r ← expectC '=' r
+    let v ← parseCValFull r
+    pure { kind := 'R', vals := [v], idx := [i] }
+  | 'O' :: rest =>
+    match takeNat rest with
+    | some (i, []) => some { kind := 'O', idx := [i] }
+    | _ => none
+  | 'X' :: rest => (parseIdxList rest).map (fun is => { kind := 'X', idx := is })
+  | 'F' :: rest => (parseCValFull rest).map (fun v => { kind := 'F', vals := [v] })
+  | 'C' :: rest => do
+    let (a, r) ← parseCValC (rest.length + 1) rest
+    let r ← expectC ',' r
+    let b ← parseCValFull r
+    pure { kind := 'C', vals := [a, b] }
+  | 'B' :: rest => do
+    let (i, r) ← takeNat rest
+    match r with
+    | [] => pure { kind := 'B', idx := [i] }
+    | [c] => if c == 'd' || c == 'r' then pure { kind := 'B', idx := [i], sub := c } else none
+    | c :: r2 =>
+      if c == 'a' || c == 'f' || c == 'l' then
+        match takeNat r2 with
+        | some (p, []) => if p == 0 then none else pure { kind := 'B', idx := [i], sub := c, per := p }
+        | _ => none
+      else none
+  | 'G' :: rest => do
+    let (p, r) ← takeNat rest
+    if p == 0 then none else
+    match r with
+    | [] => pure { kind := 'G', per := p }
+    | ['f'] => pure { kind := 'G', per := p, sub := 'f' }
+    | ['l'] => pure { kind := 'G', per := p, sub := 'l' }
+    | _ => none
   | _ => none
 
 def parseChain (s : String) : Option (List CStage) :=
@@ -218,12 +315,15 @@ def parseQ (text : String) : Option QCase :=
     | _ => none
   | _ => none
 
-/-- urn ids: source field j ↦ j, spare sentinel j ↦ -(1+j), new field of pipeline `tag` ↦ base + 10·stage (+ 1 + field). -/
+/-- urn ids: field j of the source's metadata slices ↦ j (`s`), 100+j (`t`), 200+j (`v`); spare sentinel j ↦ -(1+j);
+    new field of pipeline `tag` ↦ base + 10·stage (+ 1 + field). -/
 def tagBase (tag : String) : Int := if tag == "p" then 1000 else if tag == "q" then 2000 else 3000
 
 def urnName (v : Int) : String :=
   if v < 0 then s!"zz{-v - 1}"
-  else if v < 1000 then s!"s{v}"
+  else if v < 100 then s!"s{v}"
+  else if v < 200 then s!"t{v - 100}"
+  else if v < 1000 then s!"v{v - 200}"
   else
     let tag := if v < 2000 then "p" else if v < 3000 then "q" else "j"
     let r := v % 1000
@@ -235,73 +335,229 @@ def fmtVal : Val → String
   | .nil => "n"
   | .int i => toString i
 
-def fmtRow (r : Nat × List Val) : String := s!"{r.1}:{fmtList fmtVal r.2}"
+/-- timestamps are counted in half seconds from the base; whole seconds print as seconds -/
+def fmtTs (ts : Int) : String := if ts % 2 == 0 then toString (ts / 2) else s!"{ts}h"
 
-def fmtRows (rows : List (Nat × List Val)) : String :=
+def fmtRow (r : Int × List Val) : String := s!"{fmtTs r.1}:{fmtList fmtVal r.2}"
+
+def fmtRows (rows : List (Int × List Val)) : String :=
   if rows.isEmpty then "-" else ";".intercalate (rows.map fmtRow)
 
 def fmtUrns (m : List Val) : String :=
   fmtList (fun v => match v with | .int i => urnName i | .nil => "?") m
 
-def toValFn (v : CVal) : ValFn := if v.ref then .ref v.n.toNat else .const (.int v.n)
+def toValFn : CVal → ValFn
+  | .const n => .const (.int n)
+  | .ref i => .ref i
+  | .nvl a b => .nvl (toValFn a) (toValFn b)
+  | .plus a b => .bin .add (toValFn a) (toValFn b)
+  | .sel a b t f => .selGt (toValFn a) (toValFn b) (toValFn t) (toValFn f)
+  | .cast a => .cast (toValFn a)
 
-def srcRow (w i : Nat) : List Val := (rangeI w).map (fun j => Val.int (100 * i + j + 1))
+def layNil (lay : String) : Bool := lay.endsWith "n"
+def layPack (lay : String) : Bool := lay.startsWith "pack"
+
+/-- source row i: cell j = 100·i + j + 1; with an `n` layout the LAST column is optional and nil in the rows i ≡ 1 (mod 3) -/
+def srcRow (nilCol : Bool) (w i : Nat) : List Val :=
+  (List.range w).map (fun j => if nilCol && j + 1 == w && i % 3 == 1 then Val.nil else Val.int (100 * i + j + 1))
+
+/-! #### aligner / gap filler: which output row is which input row (timestamps only; shared by spec and model) -/
+
+inductive ADir
+  | pass (i : Nat)                 -- the input row itself
+  | copy (i : Nat)                 -- forward fill: a copy of input row i
+  | interp (i j num den : Nat)     -- time-weighted average of rows i and j, weight num/den
+
+/-- the base instant is 1 000 000 s after the epoch = 2 000 000 half seconds; FixedAlignmentPeriod truncates from the epoch -/
+def baseHalf : Int := 2000000
+
+def startOf (p : Nat) (t : Int) : Int :=
+  let a := baseHalf + t
+  a - a % (p : Int) - baseHalf
+
+/-- aligner_report_filter.go:41-91 over cluster_sorted_stream.go: one output per cluster, stamped with the cluster start;
+    first cluster / exactly aligned first item: the item; else the average with the previous cluster's last item, which is
+    the item just before (clusters are runs of adjacent items) -/
+def clusterDirs (p : Nat) (tss : List Int) : List (Int × ADir) :=
+  let r := tss.foldl (fun (acc : (List (Int × ADir) × Option (Int × Int)) × Nat) t =>
+    let i := acc.2
+    let s := startOf p t
+    let out := acc.1.1
+    match acc.1.2 with
+    | none => ((out ++ [(s, ADir.pass i)], some (t, s)), i + 1)
+    | some (pt, ps) =>
+      if ps == s then ((out, some (t, s)), i + 1)
+      else if t == s then ((out ++ [(s, ADir.pass i)], some (t, s)), i + 1)
+      else ((out ++ [(s, ADir.interp (i - 1) i (s - pt).toNat (t - pt).toNat)], some (t, s)), i + 1))
+    ((([] : List (Int × ADir)), (none : Option (Int × Int))), 0)
+  r.1.1
+
+/-- ts_gap_filler_stream.go: one output per period from the first to the last point -/
+def gapDirs (p : Nat) (fill : Char) (tss : List Int) : List (Int × ADir) :=
+  match tss.head?, tss.getLast? with
+  | some t0, some tl =>
+    let cnt := ((tl - t0) / (p : Int)).toNat + 1
+    (List.range cnt).map (fun (k : Nat) =>
+      let e := t0 + Int.ofNat k * Int.ofNat p
+      match tss.idxOf? e with
+      | some i => (e, ADir.pass i)
+      | none =>
+        let j := (tss.takeWhile (· < e)).length
+        let i := j - 1
+        if fill == 'l' then (e, ADir.interp i j (e - tss.getD i 0).toNat (tss.getD j 0 - tss.getD i 0).toNat)
+        else (e, ADir.copy i))
+  | _, _ => []
 
 /-! #### table-level specification (no heap) -/
 
+/-- a result row: `orig = some i` — the caller's row slice i itself, handed on by every stage so far; `none` — a row
+    made by the library (it must not share memory with a caller row or with another row of the result) -/
+structure TRow where
+  ts : Int
+  vals : List Val
+  orig : Option Nat := none
+
 structure Tbl where
   urns : List Val
-  rows : List (Nat × List Val)
+  rows : List TRow
+
+def twaVal (num den : Nat) : Val → Val → Val
+  | .int a, .int b => .int (twaInt num den a b)
+  | _, _ => .nil
+
+def applyDirsT (rows : List TRow) (dirs : List (Int × ADir)) : List TRow :=
+  let rowAt := fun i => rows.getD i { ts := 0, vals := [] }
+  dirs.map (fun d => match d.2 with
+    | .pass i => { rowAt i with ts := d.1 }
+    | .copy i => { ts := d.1, vals := (rowAt i).vals }
+    | .interp i j n dn => { ts := d.1, vals := List.zipWith (twaVal n dn) (rowAt i).vals (rowAt j).vals })
+
+def alignT (p : Nat) (fill : Char) (rows : List TRow) : List TRow :=
+  let sparse := applyDirsT rows (clusterDirs p (rows.map (·.ts)))
+  if fill == 'f' || fill == 'l' then applyDirsT sparse (gapDirs p fill (sparse.map (·.ts))) else sparse
+
+def pairsT (rows : List TRow) (f : Int → Val → Int → Val → Val) : List TRow :=
+  (rows.zip rows.tail).map (fun pc =>
+    { ts := pc.2.ts, vals := [f pc.1.ts (pc.1.vals.getD 0 Val.nil) pc.2.ts (pc.2.vals.getD 0 Val.nil)] })
+
+def deltaVal : Val → Val → Val
+  | .int prev, .int cur => .int (cur - prev)
+  | _, _ => .nil
+
+def rateVal (pt : Int) (pv : Val) (ct : Int) (cv : Val) : Val :=
+  match pv, cv with
+  | .int prev, .int cur => .int ((2 * (cur - prev)).tdiv (ct - pt))
+  | _, _ => .nil
+
+def colsOf (row : List Val) (keep : List Nat) : List Val := keep.map (fun i => row.getD i Val.nil)
+
+def keepOf (width : Nat) (dropped : List Nat) : List Nat := (List.range width).filter (fun i => !dropped.contains i)
+
+/-- a stage that builds one new row per row -/
+def mkRows (rows : List TRow) (f : List Val → List Val) : List TRow :=
+  rows.map (fun r => { ts := r.ts, vals := f r.vals })
 
 def specStageT (tag : String) (si : Nat) (t : Tbl) (st : CStage) : Tbl :=
-  match st.kind with
-  | 'D' => { t with rows := t.rows.filter (fun r => r.1 % 2 == 0) }
-  | 'A' =>
-    match st.vals with
-    | v :: _ =>
-      { urns := t.urns ++ [.int (tagBase tag + 10 * si)],
-        rows := t.rows.map (fun r => (r.1, r.2 ++ [(toValFn v).eval r.2])) }
-    | [] => t
-  | _ =>
-    { urns := (rangeI st.vals.length).map (fun j => Val.int (tagBase tag + 10 * si + 1 + j)),
-      rows := t.rows.map (fun r => (r.1, specSelect r.2 (st.vals.map toValFn))) }
+  let newUrn := Val.int (tagBase tag + 10 * si)
+  let i0 := st.idx.headD 0
+  match st.kind, st.vals with
+  | 'D', _ => { t with rows := t.rows.filter (fun r => (r.ts / 2) % 2 == 0) }
+  | 'A', v :: _ => { urns := t.urns ++ [newUrn], rows := mkRows t.rows (fun r => r ++ [(toValFn v).eval r]) }
+  | 'S', vs =>
+    { urns := (rangeI vs.length).map (fun j => Val.int (tagBase tag + 10 * si + 1 + j)),
+      rows := mkRows t.rows (fun r => specSelect r (vs.map toValFn)) }
+  | 'R', v :: _ => { urns := t.urns.set i0 newUrn, rows := mkRows t.rows (fun r => r.set i0 ((toValFn v).eval r)) }
+  | 'O', _ => { t with urns := t.urns.set i0 newUrn }
+  | 'X', _ =>
+    let keep := keepOf t.urns.length st.idx
+    { urns := colsOf t.urns keep, rows := mkRows t.rows (fun r => colsOf r keep) }
+  | 'F', v :: _ => { urns := [newUrn], rows := mkRows t.rows (fun r => [(toValFn v).eval r]) }
+  | 'C', [a, b] => { t with rows := t.rows.filter (fun r => valGt ((toValFn a).eval r.vals) ((toValFn b).eval r.vals)) }
+  | 'B', _ =>
+    let col := mkRows t.rows (fun r => [r.getD i0 Val.nil])
+    let rows :=
+      if st.sub == 'd' then pairsT col (fun _ pv _ cv => deltaVal pv cv)
+      else if st.sub == 'r' then pairsT col rateVal
+      else if st.sub == 'a' || st.sub == 'f' || st.sub == 'l' then alignT st.per st.sub col
+      else col
+    { urns := [t.urns.getD i0 Val.nil], rows := rows }
+  | 'G', _ => { t with rows := alignT st.per st.sub t.rows }
+  | _, _ => t
 
 def specChainT (tag : String) (t : Tbl) (chain : List CStage) : Tbl :=
   (chain.foldl (fun (acc : Tbl × Nat) st => (specStageT tag acc.2 acc.1 st, acc.2 + 1)) (t, 0)).1
 
 def nils (n : Nat) : List Val := List.replicate n Val.nil
 
-def specJoinT (mode : String) (n : Nat) (a b : Tbl) : Tbl :=
-  let wa := a.urns.length
-  let wb := b.urns.length
-  let rows := (List.range n).filterMap (fun ts =>
-    match a.rows.lookup ts, b.rows.lookup ts with
-    | some ra, some rb => some (ts, ra ++ rb)
-    | some ra, none => if mode == "joinI" then none else some (ts, ra ++ nils wb)
-    | none, some rb => if mode == "joinF" then some (ts, nils wa ++ rb) else none
-    | none, none => none)
-  { urns := a.urns ++ b.urns, rows := rows }
+def unionTs (sides : List (List Int)) : List Int :=
+  ((sides.flatten.toArray.qsort (· < ·)).toList).eraseDups
+
+/-- kind: 'I' inner, 'L' left, 'F' full; two or more sides: every joined row is a new row -/
+def specJoinT (kind : Char) (sides : List Tbl) : Tbl :=
+  let tss := unionTs (sides.map (fun s => s.rows.map (·.ts)))
+  let rows := tss.filterMap (fun ts =>
+    let cells := sides.map (fun s => ((s.rows.find? (fun r => r.ts == ts)).map (·.vals), s.urns.length))
+    let padded : TRow := { ts := ts, vals := cells.flatMap (fun c => c.1.getD (nils c.2)) }
+    if kind == 'I' then (if cells.all (fun c => c.1.isSome) then some padded else none)
+    else if kind == 'L' then (match cells.head? with | some (some _, _) => some padded | _ => none)
+    else (if cells.any (fun c => c.1.isSome) then some padded else none))
+  { urns := sides.flatMap (·.urns), rows := rows }
 
 def isJoin (mode : String) : Bool := mode.startsWith "join"
-def joinKind (mode : String) : String := if mode == "joinsharedI" then "joinI" else mode
+
+/-- the join letter of a mode: joinI, joinsharedI, j3L, tjFs, tkIa … -/
+def joinLetter (mode : String) : Char :=
+  let cs := mode.toList
+  if mode.startsWith "joinshared" then 'I'
+  else if mode.startsWith "join" then cs.getD 4 'I'
+  else cs.getD 2 'I'
+
+def srcTbl (c : QCase) (urnBase : Nat) : Tbl :=
+  { urns := (List.range c.w).map (fun j => Val.int (Int.ofNat (urnBase + j))),
+    rows := (List.range c.n).map (fun i => { ts := ((2 * i : Nat) : Int), vals := srcRow (layNil c.lay) c.w i, orig := some i }) }
+
+/-- the results of one case (one for the join modes, two otherwise) -/
+def specOuts (c : QCase) : Option (List Tbl) :=
+  let s := srcTbl c 0
+  let t := srcTbl c 100
+  let v := srcTbl c 200
+  let k := joinLetter c.mode
+  if c.mode == "seq" || c.mode == "alt" then some [specChainT "p" s c.p, specChainT "q" s c.q]
+  else if isJoin c.mode then
+    some [specChainT "j" (specJoinT k [specChainT "p" s c.p, specChainT "q" s c.q]) c.post]
+  else if c.mode.startsWith "j3" then
+    some [specChainT "j" (specJoinT k [specChainT "p" s c.p, t, specChainT "q" v c.q]) c.post]
+  else if c.mode.startsWith "tj" then
+    some [specChainT "j" (specJoinT k [s, specChainT "p" t c.p]) c.post,
+          specChainT "j" (specJoinT k [s, specChainT "q" t c.q]) c.post]
+  else if c.mode.startsWith "tk" then
+    some [specChainT "j" (specJoinT k [specChainT "p" t c.p, s]) c.post,
+          specChainT "j" (specJoinT k [specChainT "q" t c.q, s]) c.post]
+  else none
+
+/-- which memory every row of a result is: `c<i>` the caller's row i, `f` a row of its own, `d<j>` the same memory as
+    the earlier row j of this result -/
+def fmtAlias (toks : List String) : String := if toks.isEmpty then "-" else ",".intercalate toks
+
+def fmtOuts (outs : List (List (Int × List Val) × List String × List Val)) : String :=
+  match outs with
+  | [j] => s!"J={fmtRows j.1} aJ={fmtAlias j.2.1} mJ={fmtUrns j.2.2}"
+  | [p, q] => s!"P={fmtRows p.1} aP={fmtAlias p.2.1} mP={fmtUrns p.2.2} Q={fmtRows q.1} aQ={fmtAlias q.2.1} mQ={fmtUrns q.2.2}"
+  | _ => "?"
 
 def specPayload (c : QCase) : String :=
-  let src : Tbl := { urns := (rangeI c.w).map (fun j => Val.int j),
-                     rows := (List.range c.n).map (fun i => (i, srcRow c.w i)) }
-  let tp := specChainT "p" src c.p
-  let tq := specChainT "q" src c.q
-  if isJoin c.mode then
-    let tj := specChainT "j" (specJoinT (joinKind c.mode) c.n tp tq) c.post
-    s!"J={fmtRows tj.rows} mJ={fmtUrns tj.urns} u=1"
-  else
-    s!"P={fmtRows tp.rows} mP={fmtUrns tp.urns} Q={fmtRows tq.rows} mQ={fmtUrns tq.urns} u=1"
+  match specOuts c with
+  | none => "bad-case"
+  | some outs =>
+    fmtOuts (outs.map (fun t => (t.rows.map (fun r => (r.ts, r.vals)),
+      t.rows.map (fun r => match r.orig with | some i => s!"c{i}" | none => "f"), t.urns))) ++ " u=1 x=1 y=1"
 
 /-! #### the heap model -/
 
 /-- A result in flight: metadata register, (timestamp, row register) list, row width. -/
 structure HTbl where
   md : Nat
-  rows : List (Nat × Nat)
+  rows : List (Int × Nat)
   width : Nat
 
 def emit (s : RState) (op : ROp) : RState × Nat := (stepR s op, s.regs.length)
@@ -312,84 +568,215 @@ def growsOf (s : RState) : List Nat :=
   let g := s.regs.length
   [g % 3, (g + 1) % 3, (g + 2) % 3, g % 2, (g + 1) % 2, g % 3, 0, 1]
 
-def mapRows (s : RState) (rows : List (Nat × Nat)) (f : RState → Nat → ROp) : RState × List (Nat × Nat) :=
-  rows.foldl (fun (acc : RState × List (Nat × Nat)) r =>
+def mapRows (s : RState) (rows : List (Int × Nat)) (f : RState → Nat → ROp) : RState × List (Int × Nat) :=
+  rows.foldl (fun (acc : RState × List (Int × Nat)) r =>
     let e := emit acc.1 (f acc.1 r.2)
     (e.1, acc.2 ++ [(r.1, e.2)])) (s, [])
 
+/-- rows of an aligner / gap filler: a passed-on row keeps its REGISTER (the same slice value), the others are made -/
+def applyDirsH (s : RState) (rows : List (Int × Nat)) (dirs : List (Int × ADir))
+    (passOp : Option (Nat → ROp)) (interpFs : Nat → Nat → List ValFn) : RState × List (Int × Nat) :=
+  let regAt := fun i => (rows.getD i (0, 0)).2
+  dirs.foldl (fun (acc : RState × List (Int × Nat)) d =>
+    match d.2 with
+    | .pass i =>
+      match passOp with
+      | none => (acc.1, acc.2 ++ [(d.1, regAt i)])
+      | some f => let e := emit acc.1 (f (regAt i)); (e.1, acc.2 ++ [(d.1, e.2)])
+    | .copy i => let e := emit acc.1 (.copyRow (regAt i)); (e.1, acc.2 ++ [(d.1, e.2)])
+    | .interp i j n dn =>
+      let e := emit acc.1 (.combineRow (regAt i) (regAt j) (interpFs n dn))
+      (e.1, acc.2 ++ [(d.1, e.2)])) (s, [])
+
+def twaFns (w : Nat) (n dn : Nat) : List ValFn :=
+  (List.range w).map (fun c => ValFn.bin (.twa n dn) (.ref c) (.ref (w + c)))
+
+def pairsH (s : RState) (rows : List (Int × Nat)) (f : Int → Int → List ValFn) : RState × List (Int × Nat) :=
+  (rows.zip rows.tail).foldl (fun (acc : RState × List (Int × Nat)) pc =>
+    let e := emit acc.1 (.combineRow pc.1.2 pc.2.2 (f pc.1.1 pc.2.1))
+    (e.1, acc.2 ++ [(pc.2.1, e.2)])) (s, [])
+
 def stageH (tag : String) (si : Nat) (s : RState) (t : HTbl) (st : CStage) : RState × HTbl :=
-  match st.kind with
-  | 'D' => (s, { t with rows := t.rows.filter (fun r => r.1 % 2 == 0) })
-  | 'A' =>
-    match st.vals with
-    | v :: _ =>
-      let m := emit s (.appendMeta t.md (.int (tagBase tag + 10 * si)) (growOf s))
-      let rs := mapRows m.1 t.rows (fun s r => .appendRow r (toValFn v) (growOf s))
-      (rs.1, { md := m.2, rows := rs.2, width := t.width + 1 })
-    | [] => (s, t)
-  | _ =>
-    let urns := (rangeI st.vals.length).map (fun j => Val.int (tagBase tag + 10 * si + 1 + j))
+  let newUrn := Val.int (tagBase tag + 10 * si)
+  let i0 := st.idx.headD 0
+  match st.kind, st.vals with
+  | 'D', _ => (s, { t with rows := t.rows.filter (fun r => (r.1 / 2) % 2 == 0) })
+  | 'A', v :: _ =>
+    let m := emit s (.appendMeta t.md newUrn (growOf s))
+    let rs := mapRows m.1 t.rows (fun s r => .appendRow r (toValFn v) (growOf s))
+    (rs.1, { md := m.2, rows := rs.2, width := t.width + 1 })
+  | 'S', vs =>
+    let urns := (rangeI vs.length).map (fun j => Val.int (tagBase tag + 10 * si + 1 + j))
     let m := emit s (.selectMeta t.md urns (growsOf s))
-    let rs := mapRows m.1 t.rows (fun s r => .selectRow r (st.vals.map toValFn) (growsOf s))
-    (rs.1, { md := m.2, rows := rs.2, width := st.vals.length })
+    let rs := mapRows m.1 t.rows (fun s r => .selectRow r (vs.map toValFn) (growsOf s))
+    (rs.1, { md := m.2, rows := rs.2, width := vs.length })
+  | 'R', v :: _ =>
+    let m := emit s (.replaceRow t.md i0 (.const newUrn))
+    let rs := mapRows m.1 t.rows (fun _ r => .replaceRow r i0 (toValFn v))
+    (rs.1, { md := m.2, rows := rs.2, width := t.width })
+  | 'O', _ =>
+    -- the row stream is handed on: same registers
+    let m := emit s (.replaceRow t.md i0 (.const newUrn))
+    (m.1, { t with md := m.2 })
+  | 'X', _ =>
+    let keep := keepOf t.width st.idx
+    let m := emit s (.dropRow t.md keep)
+    let rs := mapRows m.1 t.rows (fun _ r => .dropRow r keep)
+    (rs.1, { md := m.2, rows := rs.2, width := keep.length })
+  | 'F', v :: _ =>
+    let m := emit s (.singleRow t.md (.const newUrn))
+    let rs := mapRows m.1 t.rows (fun _ r => .singleRow r (toValFn v))
+    (rs.1, { md := m.2, rows := rs.2, width := 1 })
+  | 'C', [a, b] =>
+    -- rows and metadata are handed on; the condition only reads the row
+    (s, { t with rows := t.rows.filter (fun r =>
+      valGt ((toValFn a).eval (view s.heap (s.reg r.2))) ((toValFn b).eval (view s.heap (s.reg r.2)))) })
+  | 'B', _ =>
+    let m := emit s (.singleRow t.md (.ref i0))
+    let w := t.width
+    let rs :=
+      if st.sub == 'd' then pairsH m.1 t.rows (fun _ _ => [ValFn.bin .sub (.ref (w + i0)) (.ref i0)])
+      else if st.sub == 'r' then
+        pairsH m.1 t.rows (fun pt ct => [ValFn.bin (.rate (ct - pt).toNat) (.ref (w + i0)) (.ref i0)])
+      else if st.sub == 'a' || st.sub == 'f' || st.sub == 'l' then
+        let sp := applyDirsH m.1 t.rows (clusterDirs st.per (t.rows.map (·.1)))
+          (some (fun r => ROp.singleRow r (.ref i0)))
+          (fun n dn => [ValFn.bin (.twa n dn) (.ref i0) (.ref (w + i0))])
+        if st.sub == 'a' then sp
+        else applyDirsH sp.1 sp.2 (gapDirs st.per st.sub (sp.2.map (·.1))) none (twaFns 1)
+      else mapRows m.1 t.rows (fun _ r => .singleRow r (.ref i0))
+    (rs.1, { md := m.2, rows := rs.2, width := 1 })
+  | 'G', _ =>
+    -- the metadata slice is handed on
+    let sp := applyDirsH s t.rows (clusterDirs st.per (t.rows.map (·.1))) none (twaFns t.width)
+    let rs := if st.sub == 'f' || st.sub == 'l'
+      then applyDirsH sp.1 sp.2 (gapDirs st.per st.sub (sp.2.map (·.1))) none (twaFns t.width) else sp
+    (rs.1, { t with rows := rs.2 })
+  | _, _ => (s, t)
 
 def chainH (tag : String) (s : RState) (t : HTbl) (chain : List CStage) : RState × HTbl :=
   let r := chain.foldl (fun (acc : (RState × HTbl) × Nat) st => (stageH tag acc.2 acc.1.1 acc.1.2 st, acc.2 + 1)) ((s, t), 0)
   r.1
 
-def joinH (mode : String) (n : Nat) (s : RState) (a b : HTbl) : RState × HTbl :=
-  let m := emit s (.concatJoin [(some a.md, a.width), (some b.md, b.width)] (growsOf s))
-  let rs := (List.range n).foldl (fun (acc : RState × List (Nat × Nat)) ts =>
+def joinH (kind : Char) (s : RState) (sides : List HTbl) : RState × HTbl :=
+  let m := emit s (.concatJoin (sides.map (fun t => (some t.md, t.width))) (growsOf s))
+  let tss := unionTs (sides.map (fun t => t.rows.map (·.1)))
+  let rs := tss.foldl (fun (acc : RState × List (Int × Nat)) ts =>
     let s := acc.1
-    match a.rows.lookup ts, b.rows.lookup ts with
-    | some ra, some rb =>
-      let e := if mode == "joinL" then emit s (.leftJoin ra [(some rb, b.width)] (growsOf s))
-               else emit s (.concatJoin [(some ra, a.width), (some rb, b.width)] (growsOf s))
+    let cells := sides.map (fun t => (t.rows.lookup ts, t.width))
+    let emitRow := fun (_ : Unit) =>
+      let e :=
+        if kind == 'L' then
+          match cells with
+          | (some l, _) :: others => emit s (.leftJoin l others (growsOf s))
+          | _ => emit s (.concatJoin cells (growsOf s))
+        else emit s (.concatJoin cells (growsOf s))
       (e.1, acc.2 ++ [(ts, e.2)])
-    | some ra, none =>
-      if mode == "joinI" then acc else
-      let e := if mode == "joinL" then emit s (.leftJoin ra [(none, b.width)] (growsOf s))
-               else emit s (.concatJoin [(some ra, a.width), (none, b.width)] (growsOf s))
-      (e.1, acc.2 ++ [(ts, e.2)])
-    | none, some rb =>
-      if mode == "joinF" then
-        let e := emit s (.concatJoin [(none, a.width), (some rb, b.width)] (growsOf s))
-        (e.1, acc.2 ++ [(ts, e.2)])
-      else acc
-    | none, none => acc) (m.1, [])
-  (rs.1, { md := m.2, rows := rs.2, width := a.width + b.width })
+    if kind == 'I' then (if cells.all (fun c => c.1.isSome) then emitRow () else acc)
+    else if kind == 'L' then (match cells.head? with | some (some _, _) => emitRow () | _ => acc)
+    else (if cells.any (fun c => c.1.isSome) then emitRow () else acc)) (m.1, [])
+  (rs.1, { md := m.2, rows := rs.2, width := (sides.map (·.width)).sum })
 
 def sentinels (k : Nat) : List Val := (rangeI k).map (fun j => Val.int (-1000 - j))
 
-/-- the caller's data: row registers 0..n-1, metadata register n. -/
+/-- the caller's data: row registers 0..n-1, metadata registers n (`s`), n+1 (`t`), n+2 (`v`). -/
 def initR (c : QCase) (k m : Nat) : RState :=
-  let metaArr : List Val := (rangeI c.w).map (fun j => Val.int j) ++ (rangeI m).map (fun j => Val.int (-1 - j))
-  if c.lay == "pack" then
-    let big := ((List.range c.n).map (srcRow c.w)).flatten ++ sentinels k
-    { heap := [big, metaArr],
+  let metaArr := fun (b : Nat) =>
+    (List.range c.w).map (fun j => Val.int (Int.ofNat (b + j))) ++ (rangeI m).map (fun j => Val.int (-1 - j))
+  let metas : List (List Val) := [metaArr 0, metaArr 100, metaArr 200]
+  let row := srcRow (layNil c.lay) c.w
+  if layPack c.lay then
+    let big := ((List.range c.n).map row).flatten ++ sentinels k
+    { heap := [big] ++ metas,
       regs := (List.range c.n).map (fun i => ({ arr := 0, off := i * c.w, len := c.w, cap := (c.n - i) * c.w + k } : Slice))
-              ++ [{ arr := 1, off := 0, len := c.w, cap := c.w + m }] }
+              ++ (List.range 3).map (fun j => ({ arr := 1 + j, off := 0, len := c.w, cap := c.w + m } : Slice)) }
   else
-    { heap := (List.range c.n).map (fun i => srcRow c.w i ++ sentinels k) ++ [metaArr],
+    { heap := (List.range c.n).map (fun i => row i ++ sentinels k) ++ metas,
       regs := (List.range c.n).map (fun i => ({ arr := i, off := 0, len := c.w, cap := c.w + k } : Slice))
-              ++ [{ arr := c.n, off := 0, len := c.w, cap := c.w + m }] }
+              ++ (List.range 3).map (fun j => ({ arr := c.n + j, off := 0, len := c.w, cap := c.w + m } : Slice)) }
 
-def readRows (s : RState) (rows : List (Nat × Nat)) : List (Nat × List Val) :=
-  rows.map (fun r => (r.1, s.vals.getD r.2 []))
+def valOf (s : RState) (r : Nat) : List Val := view s.heap (s.reg r)
+
+def readRows (s : RState) (rows : List (Int × Nat)) : List (Int × List Val) :=
+  rows.map (fun r => (r.1, valOf s r.2))
+
+def srcH (c : QCase) (which : Nat) : HTbl :=
+  { md := c.n + which, rows := (List.range c.n).map (fun i => ((2 * i : Nat), i)), width := c.w }
+
+/-- one execution of the whole case on the heap -/
+def runOutsH (c : QCase) (s0 : RState) : Option (RState × List HTbl) :=
+  let s := srcH c 0
+  let t := srcH c 1
+  let v := srcH c 2
+  let k := joinLetter c.mode
+  if c.mode == "seq" || c.mode == "alt" then
+    let (s1, tp) := chainH "p" s0 s c.p
+    let (s2, tq) := chainH "q" s1 s c.q
+    some (s2, [tp, tq])
+  else if isJoin c.mode || c.mode.startsWith "j3" then
+    let (s1, tp) := chainH "p" s0 s c.p
+    let (s2, tq) := chainH "q" s1 (if isJoin c.mode then s else v) c.q
+    let (s3, tj0) := joinH k s2 (if isJoin c.mode then [tp, tq] else [tp, t, tq])
+    let (s4, tj) := chainH "j" s3 tj0 c.post
+    some (s4, [tj])
+  else if c.mode.startsWith "tj" || c.mode.startsWith "tk" then
+    let first := c.mode.startsWith "tj"
+    let (s1, tp) := chainH "p" s0 t c.p
+    let (s2, j10) := joinH k s1 (if first then [s, tp] else [tp, s])
+    let (s3, j1) := chainH "j" s2 j10 c.post
+    let (s4, tq) := chainH "q" s3 t c.q
+    let (s5, j20) := joinH k s4 (if first then [s, tq] else [tq, s])
+    let (s6, j2) := chainH "j" s5 j20 c.post
+    some (s6, [j1, j2])
+  else none
+
+/-- which memory a row register is: the caller's row i (same array, same offset), an earlier row of the result, or its own -/
+def aliasOf (s : RState) (n : Nat) (rows : List (Int × Nat)) : List String :=
+  let key := fun r => let sl := s.reg r; (sl.arr, sl.off)
+  (List.range rows.length).map (fun j =>
+    let k := key (rows.getD j (0, 0)).2
+    match (List.range n).find? (fun i => key i == k) with
+    | some i => s!"c{i}"
+    | none =>
+      match (List.range j).find? (fun jj => key (rows.getD jj (0, 0)).2 == k) with
+      | some jj => s!"d{jj}"
+      | none => "f")
+
+def fmtOutsH (s : RState) (n : Nat) (outs : List HTbl) : String :=
+  fmtOuts (outs.map (fun t => (readRows s t.rows, aliasOf s n t.rows, valOf s t.md)))
 
 def modelPayload (c : QCase) (k m : Nat) : String :=
   let s0 := initR c k m
-  let src : HTbl := { md := c.n, rows := (List.range c.n).map (fun i => (i, i)), width := c.w }
-  let (s1, tp) := chainH "p" s0 src c.p
-  let (s2, tq) := chainH "q" s1 src c.q
-  if isJoin c.mode then
-    let (s3, tj0) := joinH (joinKind c.mode) c.n s2 tp tq
-    let (s4, tj) := chainH "j" s3 tj0 c.post
-    let u := s4.heap.take s0.heap.length == s0.heap
-    s!"J={fmtRows (readRows s4 tj.rows)} mJ={fmtUrns (s4.vals.getD tj.md [])} u={boolStr u}"
-  else
-    let u := s2.heap.take s0.heap.length == s0.heap
-    s!"P={fmtRows (readRows s2 tp.rows)} mP={fmtUrns (s2.vals.getD tp.md [])} Q={fmtRows (readRows s2 tq.rows)} mQ={fmtUrns (s2.vals.getD tq.md [])} u={boolStr u}"
+  match runOutsH c s0 with
+  | none => "bad-case"
+  | some (s1, outs1) =>
+    -- everything is executed a second time; all results are read at the very end
+    match runOutsH c s1 with
+    | none => "bad-case"
+    | some (s2, outs2) =>
+      let u := s2.heap.take s0.heap.length == s0.heap
+      let x := (List.range c.n).all (fun i => valOf s2 i == srcRow (layNil c.lay) c.w i)
+      let first := fmtOutsH s2 c.n outs1
+      let y := fmtOutsH s2 c.n outs2 == first
+      s!"{first} u={boolStr u} x={boolStr x} y={boolStr y}"
+
+/-- `want` says which memory every row is; a row the model hands on (`c<i>`) may also be observed as a row of its own
+    (`f`: copying is never an aliasing problem — it is reported as a model/code mismatch, not as a failure of the
+    property); a row that has to be fresh must be fresh -/
+def aliasTokOk (got want : String) : Bool :=
+  match got.splitOn "=", want.splitOn "=" with
+  | [gn, gv], [wn, wv] =>
+    let gs := gv.splitOn ","
+    let ws := wv.splitOn ","
+    gn == wn && gs.length == ws.length && (gs.zip ws).all (fun gw => gw.1 == gw.2 || (gw.2.startsWith "c" && gw.1 == "f"))
+  | _, _ => false
+
+def isAliasTok (t : String) : Bool := t.startsWith "aP=" || t.startsWith "aQ=" || t.startsWith "aJ="
+
+def obsMeets (obs want : String) : Bool :=
+  let gs := obs.splitOn " "
+  let ws := want.splitOn " "
+  gs.length == ws.length && (gs.zip ws).all (fun gw => gw.1 == gw.2 || (isAliasTok gw.2 && aliasTokOk gw.1 gw.2))
 
 def handleQ (text obs : String) : String × Bool × String :=
   match parseQ text with
@@ -398,16 +785,22 @@ def handleQ (text obs : String) : String × Bool × String :=
     let model := " ".intercalate (c.caps.map (fun km => s!"[{km.1}:{km.2} {modelPayload c km.1 km.2}]"))
     let sp := specPayload c
     let want := " ".intercalate (c.caps.map (fun km => s!"[{km.1}:{km.2} {sp}]"))
-    if obs == want then (model, true, "")
+    if obsMeets obs want then (model, true, "")
     else
       -- classify: which clause of the property fails
       let got := (obs.splitOn "] [")
       let wants := (want.splitOn "] [")
-      let bad := (got.zip wants).filter (fun gw => gw.1 != gw.2)
+      let bad := (got.zip wants).filter (fun gw => !obsMeets gw.1 gw.2)
+      let aliased := ((obs.splitOn " ").zip (want.splitOn " ")).any (fun gw => isAliasTok gw.2 && !aliasTokOk gw.1 gw.2)
       let someOk := bad.length < wants.length && got.length == wants.length
       let mutated := (obs.splitOn "u=0").length > 1
+      let reexec := (obs.splitOn "x=0").length > 1
+      let rerun := (obs.splitOn "y=0").length > 1
       let why := (if mutated then "caller data modified; " else "") ++
+        (if reexec then "the static source executed again does not return the original rows; " else "") ++
+        (if rerun then "the same query executed again returns something else; " else "") ++
         (if someOk then "result depends on the spare capacity; " else "") ++
+        (if aliased then "a row made by the library shares its memory with a caller row or with another row of the result; " else "") ++
         (match bad.head? with | some gw => s!"first bad combo got `{gw.1}` want `{gw.2}`" | none => s!"want {want}")
       let kf := if c.mode == "joinshared" ++ "I" then "KF:F6 one datasource object materialised by both join sides (shared cursor); " else ""
       (model, false, kf ++ why)
